@@ -75,33 +75,28 @@ def _num(v, default=0):
             return default
 
 
-def h_stream_decode(inputs):
+def h_stream_decode(inputs, proof):
     """inputs: in_size, w_0..w_15 (first buffer bytes)."""
     n = _num(inputs.get("in_size"), 0)
     bs = [_num(inputs.get("w_%d" % i), 0) & 0xFF for i in range(16)]
     return run_native("stream_decode.c", [n] + ["%02x" % b for b in bs])
 
 
-def h_encoders(inputs):
-    which = _num(inputs.get("in_which"), 0)
-    val = _num(inputs.get("in_value"), 0)
-    n = _num(inputs.get("in_size"), 0)
-    return run_native("encoders.c", [which, val, n])
-
-
 def h_generic(prog):
-    def h(inputs):
+    """argv = in_*/w_* assignments of the counterexample; the program is compiled with the proof's -D defines."""
+    def h(inputs, proof):
         args = []
         for k in sorted(inputs):
-            if k.startswith("in_") or k.startswith("w_"):
-                args.append("%s=%s" % (k, _num(inputs[k], 0)))
-        return run_native(prog, args)
+            if re.match(r"^(in_|w_)[A-Za-z0-9_]*$", k):
+                v = inputs[k]
+                args.append("%s=%s" % (k, _num(v, 0)))
+        return run_native(prog, args, extra_defs=proof.get("defines", []))
     return h
 
 
 HANDLERS = {
     "stream_decode": h_stream_decode,
-    "encoders": h_encoders,
+    "encoders": h_generic("encoders.c"),
     "floats": h_generic("floats.c"),
     "utf8": h_generic("utf8.c"),
     "memutils": h_generic("memutils.c"),
@@ -112,30 +107,44 @@ HANDLERS = {
 }
 
 
-def write_replay(pid, proof, r, ob):
+def write_replay(pid, proof, r, obs):
+    """One replay file per (property, proof): every failed obligation of that proof attributed to the
+    property, the verifier's reduced counterexamples, and the native replay outcome."""
     os.makedirs(os.path.join(VERIF, "replays"), exist_ok=True)
-    safe = re.sub(r"[^A-Za-z0-9_.-]", "_", "%s-%s-%s" % (pid, r["name"], ob["name"]))[:150]
+    safe = re.sub(r"[^A-Za-z0-9_.-]", "_", "%s-%s" % (pid, r["name"]))[:150]
     path = os.path.join(VERIF, "replays", safe + ".json")
-    info = dict(property=pid, proof=r["name"], back_end=r.get("backend"), failed_obligation=ob["name"],
-                description=ob["desc"], kind=ob.get("kind"), source_file=ob.get("file"), source_line=ob.get("line"),
-                verifier_cmd=r.get("cmd"), verifier_status=ob["status"],
-                counterexample_inputs=ob.get("inputs") or {},
-                note="obligation discharged on the unchanged tree; FAILURE is a satisfying assignment found by "
-                     "CBMC for the contract-abstracted program, not a timeout")
+    info = dict(property=pid, proof=r["name"], back_end=r.get("backend"),
+                failed_obligations=[dict(name=ob["name"], description=ob["desc"], kind=ob.get("kind"),
+                                         source_file=ob.get("file"), source_line=ob.get("line"),
+                                         verifier_status=ob["status"],
+                                         counterexample_inputs=ob.get("inputs") or {}) for ob in obs],
+                failed_obligation=obs[0]["name"], description=obs[0]["desc"],
+                verifier_cmd=r.get("cmd"),
+                note="each listed obligation is discharged on the unchanged tree; FAILURE is a satisfying assignment "
+                     "found by CBMC for the contract-abstracted program, not a timeout")
     handler = proof.get("replay") if isinstance(proof, dict) else None
     info["reproduced_on_real_code"] = False
-    if handler and handler in HANDLERS and ob.get("inputs"):
-        try:
-            nat = HANDLERS[handler](ob["inputs"])
-        except Exception as e:  # replay trouble must not mask the violation
-            nat = dict(built=False, output="replay handler error: %r" % (e,), reproduced=None)
-        info["native_replay"] = nat
+    info["native_replays"] = []
+    if handler and handler in HANDLERS:
         info["native_replay_handler"] = handler
-        info["reproduced_on_real_code"] = bool(nat.get("reproduced"))
-    elif handler:
-        info["native_replay"] = "handler %s registered but the verifier gave no usable input assignment" % handler
+        info["proof_defines"] = proof.get("defines", [])
+        for ob in obs:
+            if not ob.get("inputs"):
+                continue
+            try:
+                nat = HANDLERS[handler](ob["inputs"], proof)
+            except Exception as e:  # replay trouble must not mask the violation
+                nat = dict(built=False, output="replay handler error: %r" % (e,), reproduced=None)
+            nat["for_obligation"] = ob["name"]
+            info["native_replays"].append(nat)
+            if nat.get("reproduced"):
+                info["reproduced_on_real_code"] = True
+                info["counterexample_inputs"] = ob["inputs"]
+                break
+        if not info["native_replays"]:
+            info["native_replay"] = "handler %s registered but the verifier gave no usable input assignment" % handler
     else:
-        info["native_replay"] = "no native replay for this proof: no-failing-input-found"
+        info["native_replay"] = "no native replay exists for this proof (no-failing-input-found); the failed obligation and the verifier output above are the report"
     with open(path, "w") as f:
         json.dump(info, f, indent=1)
     return path
@@ -146,7 +155,7 @@ def replay_file(path):
     print(json.dumps({k: info[k] for k in ("property", "proof", "failed_obligation", "description")}, indent=1))
     h = info.get("native_replay_handler")
     if h and info.get("counterexample_inputs"):
-        nat = HANDLERS[h](info["counterexample_inputs"])
+        nat = HANDLERS[h](info["counterexample_inputs"], dict(defines=info.get("proof_defines", [])))
         print(nat.get("output", ""))
         print("reproduced_on_real_code:", nat.get("reproduced"))
         return 1 if nat.get("reproduced") else 0
